@@ -16,7 +16,9 @@ when the corresponding flag in ``hz`` is set, so that the bulk of the cases stay
     case = g.generate()
     case.source_k / case.source_h / case.driver / case.inputs / case.meta
 """
+import random
 import re
+import zlib
 from dataclasses import dataclass, field
 
 from vlib.fgenlab import ExprGen
@@ -253,9 +255,10 @@ class _Env:
 class RoutineGen:
     """Generates one routine body together with its model."""
 
-    def __init__(self, rng, name, hz, is_kernel, callees, mode, budget):
+    def __init__(self, rng, name, hz, is_kernel, callees, mode, budget, case_mix=True):
         self.rng = rng
         self.name = name
+        self.case_mix = case_mix
         self.hz = hz
         self.is_kernel = is_kernel
         self.callees = callees        # list of RoutineInfo that may be called
@@ -1372,14 +1375,52 @@ class RoutineGen:
             if v.role in ('local', 'loopvar'):
                 L.append('  ' + v.decl())
         info.first_line = len(L)
-        L += info.lines
+        L += self.respell(info) if self.case_mix else info.lines
         L.append(f'end subroutine {self.name}')
         return L
 
+    _TOKEN = re.compile(r'(?<![A-Za-z0-9_.])[a-z_][a-z0-9_]*(?![A-Za-z0-9_])')
+
+    def respell(self, info):
+        """Letter-case variation of the body text (Fortran names are case-insensitive): every occurrence of an
+        associate name is spelled in upper case with probability 1/2 -- so the ASSOCIATE statement and the uses
+        in the block mostly differ -- and, in half of the routines, 15 % of the occurrences of ordinary variables
+        are spelled in upper case or capitalised.  The model, the block table and the declarations keep the lower
+        case names; the spelling is drawn from a generator seeded by the text (the case stream is not touched).
+        Keyword-argument names (``name=`` without blank) are left alone."""
+        r = random.Random(zlib.crc32('\n'.join(info.lines).encode()))
+        mix_all = r.random() < 0.5
+        changed = [False, False]
+
+        def sub(m):
+            w = m.group(0)
+            v = self.vars.get(w)
+            if v is None:
+                return w
+            rest = m.string[m.end():m.end() + 2]
+            if rest[:1] == '=' and rest != '==':
+                return w           # keyword of an actual argument
+            if v.role == 'alias':
+                if r.random() < 0.5:
+                    changed[0] = True
+                    return w.upper()
+                return w
+            if mix_all and r.random() < 0.15:
+                changed[1] = True
+                return w.upper() if r.random() < 0.6 else w.capitalize()
+            return w
+        out = [self._TOKEN.sub(sub, ln) for ln in info.lines]
+        if changed[0]:
+            info.features.add('case_mix_associate')
+        if changed[1]:
+            info.features.add('case_mix_variables')
+        return out
+
 
 class DFGen:
-    def __init__(self, rng, hz=None, mode='same', budget=12, ncallees=None, tag=''):
+    def __init__(self, rng, hz=None, mode='same', budget=12, ncallees=None, tag='', case_mix=True):
         self.rng = rng
+        self.case_mix = case_mix     # letter-case variation of names in the routine bodies (RoutineGen.respell)
         self.tag = str(tag)
         self.hz = dict(hz or {})
         self.mode = mode
@@ -1392,11 +1433,11 @@ class DFGen:
         ctexts = []
         for k in range(self.ncallees):
             rg = RoutineGen(rng, f'h{k + 1}', self.hz, False, list(callees) if rng.random() < 0.3 else [],
-                            'same', rng.choice([3, 4, 6]))
+                            'same', rng.choice([3, 4, 6]), case_mix=self.case_mix)
             info = rg.generate()
             ctexts.append(rg.text(info))
             callees.append(info)
-        kg = RoutineGen(rng, 'kern', self.hz, True, callees, self.mode, self.budget)
+        kg = RoutineGen(rng, 'kern', self.hz, True, callees, self.mode, self.budget, case_mix=self.case_mix)
         kinfo = kg.generate()
         ktext = kg.text(kinfo)
         kinds = ['module dfkinds', '  implicit none', '  integer, parameter :: jprb = selected_real_kind(13, 300)',
